@@ -14,7 +14,7 @@ import (
 func init() {
 	register(&propDef{
 		ID:          "C09",
-		Explanation: "The fixpoint equation fmt(fmt(x)) == fmt(x) itself is not decided. Decides the structural necessary condition named by the property's anchors — line-break decisions depend only on layout flags that re-parsing the output reproduces: the parser derives each layout flag (Element.IndentChildren, Element.IndentAttrs, GoCode.Multiline) from the presence of a line break inside a source span, so on the flag=false branch the formatter itself must add no line break inside that span, and on the flag=true branch it must add one. R1 in the node-list writer, the line-break constant can reach the trailing-space write only under the `indent` mode (every assignment of a newline-containing constant to the written value is control-dependent on the indent parameter; values taken from the source node are carried over, not added); R2 for each flag, the constants written directly on the false branch contain no line break and the true branch writes at least one; R3 no attribute writer (they run inside the open-tag span) writes a line-break constant unconditionally; R5 a formatter function that writes a trimmed copy of a field tests that same copy (not the raw field) for line breaks; R6 the import rewriter that `templ fmt` runs takes its decision on the number of imports only after the import set is final; R4 (purity) no formatter function (Write/String methods of parser nodes and what they call in the package) reads mutable package-level state, the clock, the environment or iterates a map. NOT decided: nodes whose grammar allows but does not require a line break inside a single-line element (block component calls), expression text re-formatting by go/format, the fixpoint on concrete files.",
+		Explanation: "The fixpoint equation fmt(fmt(x)) == fmt(x) itself is not decided. Decides the structural necessary condition named by the property's anchors — line-break decisions depend only on layout flags that re-parsing the output reproduces: the parser derives each layout flag (Element.IndentChildren, Element.IndentAttrs, GoCode.Multiline) from the presence of a line break inside a source span, so on the flag=false branch the formatter itself must add no line break inside that span, and on the flag=true branch it must add one. R1 in the node-list writer, the line-break constant can reach the trailing-space write only under the `indent` mode (every assignment of a newline-containing constant to the written value is control-dependent on the indent parameter; values taken from the source node are carried over, not added); R2 for each flag, the constants written directly on the false branch contain no line break and the true branch writes at least one; R3 no attribute writer (they run inside the open-tag span) writes a line-break constant unconditionally; R5 a formatter function that writes a trimmed copy of a field tests that same copy (not the raw field) for line breaks; R6 the import rewriter that `templ fmt` runs takes its decision on the number of imports only after the import set is final; R7 the node-list writer takes the recorded trailing space of every node kind that records one (through the interface, or a type switch covering all implementers); R8 the language server's formatting answer is one edit from 0:0 to <number of lines>:0 carrying the formatter's output, so format-on-save and `templ fmt` produce the same file; R4 (purity) no formatter function (Write/String methods of parser nodes and what they call in the package) reads mutable package-level state, the clock, the environment or iterates a map. NOT decided: nodes whose grammar allows but does not require a line break inside a single-line element (block component calls), expression text re-formatting by go/format, the fixpoint on concrete files.",
 		Assumptions: []string{"the parser sets a layout flag iff the corresponding source span contains a line break (elementparser.go / gocodeparser.go)"},
 		Trusted:     []string{"go/types", "x/tools go/packages"},
 		Run:         runC09,
@@ -67,7 +67,9 @@ func formatterWrites(info *types.Info, root ast.Node, f func(call *ast.CallExpr,
 }
 
 func runC09(c *Ctx) {
-	c.load("./parser/v2", "./generator", "./cmd/templ/imports")
+	c.load("./parser/v2", "./generator", "./cmd/templ/imports", "./cmd/templ/lspcmd/proxy")
+	trailerInterfaceCovered(c, "C09.R7")
+	formatEditCoversDocument(c, "C09.R8")
 	p := c.pkg("parser/v2")
 	info := p.TypesInfo
 
@@ -604,4 +606,240 @@ func importCountDecidedLast(c *Ctx) {
 	if n == 0 {
 		c.ok("C09.R6", p.PkgPath+"|no-import-count-decision", "", "the import processor takes no decision on the number of imports")
 	}
+}
+
+// trailerInterfaceCovered: C09.R7 — the node-list writer takes the trailing space of EVERY node kind that records one.
+// The parser stores, for each such node, the whitespace that followed it in the source; if the writer ignores it for
+// one kind and falls back to its default (a line break), a single-line element gains a line break in the first pass
+// and is re-laid-out as a multi-line element in the second.
+func trailerInterfaceCovered(c *Ctx, rule string) {
+	pp := c.pkg("parser/v2")
+	info := pp.TypesInfo
+	tsT, _ := pp.Types.Scope().Lookup("TrailingSpace").(*types.TypeName)
+	if tsT == nil {
+		c.viol(rule, "anchor-lost:TrailingSpace", "", "type parser.TrailingSpace not found")
+		return
+	}
+	// the interface: a named interface type whose single method returns TrailingSpace
+	var trailer *types.Named
+	for _, nm := range pp.Types.Scope().Names() {
+		tn, ok := pp.Types.Scope().Lookup(nm).(*types.TypeName)
+		if !ok {
+			continue
+		}
+		it, ok := tn.Type().Underlying().(*types.Interface)
+		if !ok || it.NumMethods() != 1 {
+			continue
+		}
+		sig := it.Method(0).Type().(*types.Signature)
+		if sig.Results().Len() == 1 && types.Identical(sig.Results().At(0).Type(), tsT.Type()) {
+			trailer, _ = tn.Type().(*types.Named)
+		}
+	}
+	if trailer == nil {
+		c.viol(rule, "anchor-lost:trailing-space-interface", "", "no interface with a single method returning TrailingSpace found")
+		return
+	}
+	iface := trailer.Underlying().(*types.Interface)
+	var implementers []string
+	implT := map[string]types.Type{}
+	for _, nm := range pp.Types.Scope().Names() {
+		tn, ok := pp.Types.Scope().Lookup(nm).(*types.TypeName)
+		if !ok || tn.Type() == trailer.Obj().Type() {
+			continue
+		}
+		if _, isIface := tn.Type().Underlying().(*types.Interface); isIface {
+			continue
+		}
+		if types.Implements(tn.Type(), iface) {
+			implementers = append(implementers, nm)
+			implT[nm] = tn.Type()
+		}
+	}
+	sort.Strings(implementers)
+	c.count("node_kinds_recording_trailing_space", len(implementers))
+	// the writer: a function with a local of type TrailingSpace that is written to the output
+	found := false
+	for _, fd := range allFuncDecls(pp) {
+		var local types.Object
+		ast.Inspect(fd.Body, func(x ast.Node) bool {
+			if as, ok := x.(*ast.AssignStmt); ok && as.Tok == token.DEFINE && len(as.Lhs) == 1 {
+				if id, ok := as.Lhs[0].(*ast.Ident); ok {
+					if ob := info.Defs[id]; ob != nil && types.Identical(ob.Type(), tsT.Type()) {
+						if tv, ok := info.Types[as.Rhs[0]]; ok && tv.Value != nil {
+							local = ob
+						}
+					}
+				}
+			}
+			return true
+		})
+		if local == nil {
+			continue
+		}
+		found = true
+		// how is it overridden from the node?
+		viaInterface := false
+		covered := map[string]bool{}
+		ast.Inspect(fd.Body, func(x ast.Node) bool {
+			switch x := x.(type) {
+			case *ast.TypeAssertExpr:
+				if x.Type != nil {
+					if t := info.TypeOf(x.Type); t != nil && types.Identical(t, trailer) {
+						viaInterface = true
+					}
+				}
+			case *ast.TypeSwitchStmt:
+				for _, cl := range x.Body.List {
+					cc := cl.(*ast.CaseClause)
+					assigns := false
+					ast.Inspect(cc, func(y ast.Node) bool {
+						if as, ok := y.(*ast.AssignStmt); ok {
+							for _, l := range as.Lhs {
+								if id, ok := l.(*ast.Ident); ok && info.ObjectOf(id) == local {
+									assigns = true
+								}
+							}
+						}
+						return true
+					})
+					if !assigns {
+						continue
+					}
+					for _, te := range cc.List {
+						t := info.TypeOf(te)
+						if t == nil {
+							continue
+						}
+						if types.Identical(t, trailer) {
+							viaInterface = true
+						}
+						for nm, it := range implT {
+							if types.Identical(t, it) || types.Identical(t, types.NewPointer(it)) {
+								covered[nm] = true
+							}
+						}
+					}
+				}
+			}
+			return true
+		})
+		var missing []string
+		if !viaInterface {
+			for _, nm := range implementers {
+				if !covered[nm] {
+					missing = append(missing, nm)
+				}
+			}
+		}
+		c.check(viaInterface || len(missing) == 0, rule, funcKey(pp, fd)+"|every-trailer-kind-consulted", c.pos(fd.Pos()),
+			fmt.Sprintf("trailing space taken through the %s interface (implemented by %s)", trailer.Obj().Name(), strings.Join(implementers, ", ")),
+			fmt.Sprintf("%s takes the recorded trailing space only for some node kinds; %s also record(s) one (method %s) but fall(s) back to the default line break: inside a single-line element the first pass inserts a line break after such a node, and the second pass, seeing a multi-line element, indents its children — fmt(fmt(x)) != fmt(x)", fd.Name.Name, strings.Join(missing, ", "), iface.Method(0).Name()))
+	}
+	if !found {
+		c.viol(rule, "anchor-lost:node-list-writer", "", "no function with a TrailingSpace local initialised to a constant found")
+	}
+}
+
+// formatEditCoversDocument: C09.R8 — the language server answers a formatting request with one edit that replaces the
+// whole document by the formatter's output; its range must reach the end of the last line, otherwise the editor keeps
+// the tail of the old text and what is saved differs from what `templ fmt` writes.
+func formatEditCoversDocument(c *Ctx, rule string) {
+	p := c.pkg("cmd/templ/lspcmd/proxy")
+	if p == nil {
+		c.viol(rule, "anchor-lost:lspcmd/proxy", "", "package cmd/templ/lspcmd/proxy not loaded")
+		return
+	}
+	info := p.TypesInfo
+	n := 0
+	for _, fd := range allFuncDecls(p) {
+		// a function with a *DocumentFormattingParams parameter
+		isFmt := false
+		for _, prm := range fd.Type.Params.List {
+			if t := info.TypeOf(prm.Type); t != nil && strings.HasSuffix(t.String(), ".DocumentFormattingParams") {
+				isFmt = true
+			}
+		}
+		if !isFmt {
+			continue
+		}
+		ast.Inspect(fd.Body, func(x ast.Node) bool {
+			cl, ok := x.(*ast.CompositeLit)
+			if !ok {
+				return true
+			}
+			if t := info.TypeOf(cl); t == nil || !strings.HasSuffix(t.String(), ".TextEdit") {
+				return true
+			}
+			n++
+			var rng *ast.CompositeLit
+			for _, el := range cl.Elts {
+				if kv, ok := el.(*ast.KeyValueExpr); ok && types.ExprString(kv.Key) == "Range" {
+					rng, _ = kv.Value.(*ast.CompositeLit)
+				}
+			}
+			why := ""
+			if rng == nil {
+				why = "its Range is not a literal"
+			} else {
+				for _, el := range rng.Elts {
+					kv, ok := el.(*ast.KeyValueExpr)
+					if !ok {
+						continue
+					}
+					pos, _ := kv.Value.(*ast.CompositeLit)
+					if pos == nil {
+						why = "its " + types.ExprString(kv.Key) + " is not a literal"
+						continue
+					}
+					var line, char ast.Expr
+					for _, pe := range pos.Elts {
+						if pkv, ok := pe.(*ast.KeyValueExpr); ok {
+							switch types.ExprString(pkv.Key) {
+							case "Line":
+								line = pkv.Value
+							case "Character":
+								char = pkv.Value
+							}
+						}
+					}
+					switch types.ExprString(kv.Key) {
+					case "Start":
+						if (line != nil && types.ExprString(line) != "0") || (char != nil && types.ExprString(char) != "0") {
+							why = "it does not start at 0:0"
+						}
+					case "End":
+						if line == nil {
+							why = "its end line is 0"
+							break
+						}
+						hasLen, hasArith := false, false
+						ast.Inspect(line, func(y ast.Node) bool {
+							switch y := y.(type) {
+							case *ast.CallExpr:
+								if id, ok := y.Fun.(*ast.Ident); ok && id.Name == "len" {
+									hasLen = true
+								}
+							case *ast.BinaryExpr:
+								hasArith = true
+							}
+							return true
+						})
+						charZero := char == nil || types.ExprString(char) == "0"
+						switch {
+						case !hasLen:
+							why = "its end line (" + types.ExprString(line) + ") is not computed from the number of lines of the document"
+						case hasArith && charZero:
+							why = "it ends at " + types.ExprString(line) + ":0, the START of the last line: the last line of the old text is not replaced (a document that does not end in a newline keeps its old last line after the formatted text)"
+						}
+					}
+				}
+			}
+			c.check(why == "", rule, funcKey(p, fd)+"|format-edit-replaces-whole-document", c.pos(cl.Pos()), "the edit runs from 0:0 to <number of lines>:0",
+				fd.Name.Name+": the edit that replaces the document by the formatter's output does not cover the whole document: "+why+". The editor then holds text that differs from the server's copy and from what `templ fmt` writes for the same file")
+			return true
+		})
+	}
+	c.count("format_edits", n)
+	c.floor(rule, 1)
 }
